@@ -16,8 +16,8 @@ import lib_comp as L
 PROPERTY = "C17"
 FN = "maltoolbox.language.compiler:MalCompiler.compile"
 SCOPE = {
-    "quick": "10 valid sources (a hand-written one using every construct, the resolvable two-category mini language, "
-             "8 seeded random specifications; 4 of them split over a root and 1-2 included files in the same "
+    "quick": "9 valid sources (a hand-written one using every construct, the resolvable two-category mini language, "
+             "6 seeded random specifications; 3 of them split over a root and 1-2 included files in the same "
              "directory) x every single-token deletion, 4 random token insertions (46-token vocabulary incl. reserved "
              "words, brackets, an illegal character, an unterminated string) before every token, truncation after and "
              "inside every token, a reserved word in place of every identifier, every brace / bracket / parenthesis "
@@ -71,7 +71,7 @@ def base_sources(tier, seed):
     out.append(("mini-1file", L.layout_files(decls, L.make_layout("single", len(decls), 0))))
     out.append(("mini-chain", L.layout_files(decls, L.make_layout("chain", len(decls), 5))))
     rnd = random.Random(seed)
-    n = 40 if tier == "thorough" else 8
+    n = 40 if tier == "thorough" else 6
     for i in range(n):
         spec = L.gen_spec(rnd.randrange(1 << 30), size=rnd.choice((1, 1, 2)), depth=3)
         style = L.Style(rnd.randrange(1, 1000))
@@ -82,7 +82,7 @@ def base_sources(tier, seed):
         lay["files"] = [[p.replace("sub/", "s_"), [[it[0], it[1].replace("sub/", "s_")] if it[0] == "inc" else it for it in items]]
                         for p, items in lay["files"]]
         files = L.layout_files(decls, lay, style)
-        if sum(len(t) for t in files.values()) > 4000:
+        if sum(len(t) for t in files.values()) > 3000:
             continue
         out.append(("rnd%d-%s" % (i, kind), files))
     return out
